@@ -269,8 +269,8 @@ def variants_for(case, rng, thorough):
     has_arr = any(c["k"] in ("l", "b") for c in idx["comps"])
     vs = [("list", False)]
     if has_arr:
-        vs += [("np", False), ("da", False)] if thorough else [(rng.choice(["np", "da"]), False)]
-    if thorough or rng.random() < 0.2:
+        vs += [(rng.choice(["np", "da"]), False)]
+    if rng.random() < (0.4 if thorough else 0.2):
         vs.append(("list", True))
     return vs
 
@@ -306,8 +306,8 @@ def constants(ctx, selftest=False):
     if ctx.quick:
         return {"Fams": TLA('{"slice1d", "nd", "mask"}'), "N1": 3, "Shapes2": TLA("{<<2, 3>>}"), "ShapesM": TLA("{<<3>>, <<2, 2>>}"),
                 "Lite": True, "Zero": False}
-    return {"Fams": TLA('{"slice1d", "nd", "mask"}'), "N1": 4, "Shapes2": TLA("{<<2, 3>>, <<3, 3>>, <<3, 1>>, <<2, 1, 2>>}"),
-            "ShapesM": TLA("{<<3>>, <<0>>, <<2, 2>>, <<2, 3>>}"), "Lite": False, "Zero": True}
+    return {"Fams": TLA('{"slice1d", "nd", "mask"}'), "N1": 4, "Shapes2": TLA("{<<2, 3>>, <<3, 2>>}"),
+            "ShapesM": TLA("{<<3>>, <<0>>, <<2, 2>>, <<2, 3>>}"), "Lite": False, "Zero": False}
 
 
 INVS = ["Attributable", "WritesSelection", "ReadBack", "ScalarFills"]
@@ -498,7 +498,7 @@ def run(ctx):
         ctx.sample({"case": cases[0]["c"], "expected": cases[0]["e"]})
         cross += ctx.rng.sample(cases, min(len(cases), 100))
     crosscheck_verdicts(ctx, cross)
-    pairs = record_sequences(ctx, ctx.pick(900, 12000))
+    pairs = record_sequences(ctx, ctx.pick(900, 8000))
     validate(ctx, pairs)
     if pairs:
         ctx.sample({"recorded_assignment": {k: pairs[0][0][k] for k in ("shape", "chunks", "idx", "val", "indexer")}})
